@@ -55,7 +55,7 @@ ASSUMPTIONS = [
 RULE = ("toy linear model with L1 sum loss (integer-valued gradients), k in 1..4, 1..12 iterations, batch sizes 1..4, SGD with "
         "momentum 0 or 1/2, WarmupMultiStepLR with dyadic parameters; non-trivial = k >= 2 and at least one completed window; "
         "distinct = distinct protocol line / oracle configuration")
-PENDING_FINDINGS = ["additional-models-not-divided"]     # `resume-mid-window` is listed as known
+PENDING_FINDINGS: list[str] = []     # `resume-mid-window` is listed as known; `additional-models-not-divided` was repaired
 
 logging.disable(logging.CRITICAL)
 
@@ -207,6 +207,27 @@ def make_scheduler(optimizer, sched):
                           warmup_iterations=sched["warmup_iters"], warmup_method=sched["method"])
 
 
+def counting_scaler():
+    """a grad scaler with a state that evolves (a real enabled GradScaler needs CUDA): counts its `update()` calls"""
+    from torch.cuda.amp import GradScaler
+
+    class CountingScaler(GradScaler):
+        def __init__(self):
+            super().__init__(enabled=False)
+            self.n_updates = 0
+
+        def update(self, new_scale=None):
+            self.n_updates += 1
+
+        def state_dict(self):
+            return {"n_updates": self.n_updates}
+
+        def load_state_dict(self, st):
+            self.n_updates = st["n_updates"]
+
+    return CountingScaler()
+
+
 @contextlib.contextmanager
 def crash_in_save(label, point):
     """Make the save of checkpoint `label` die at statement boundary `point`:
@@ -278,6 +299,7 @@ def run_process(expdir, c, *, total=None, kill_at=None, kill_where="pre", vanish
     eng = _engine_class()(_make_cfg(total, c["k"], c["ck"], c["bs"], c.get("clip", 0)), model, "cpu", **models)
     eng.kill_at, eng.kill_where, eng.vanish_at = kill_at, kill_where, vanish_at
     eng.oom_at, eng.oom_where = tuple(oom_at), oom_where
+    eng._scaler = counting_scaler()     # Engine.train hands `self._scaler` to the Checkpointer
 
     def params():
         return model.w.detach().clone().tolist() + (aux.v.detach().clone().tolist() if aux is not None else [])
@@ -310,7 +332,7 @@ def run_process(expdir, c, *, total=None, kill_at=None, kill_where="pre", vanish
     lm = pathlib.Path(expdir) / "last_model.txt"
     latest = int(lm.read_text()) if lm.exists() else -1
     return {"start": eng.started_at, "records": records, "code": code, "last_epoch": s.last_epoch,
-            "w": params(), "latest": latest, "opt_state": o.state_dict()["state"]}
+            "w": params(), "latest": latest, "opt_state": o.state_dict()["state"], "scaler": eng._scaler.n_updates}
 
 
 @contextlib.contextmanager
